@@ -24,7 +24,11 @@ RULE = ("histories: each case is a sub-seed from which 1-2 instance templates ar
         "classnames and keys spelt in other cases (Func_Instance, ORIGIN ...: the code compares them casefolded); "
         "collapse_all on random inclusion graphs (1-4 files, branching <= 2(3), self/mutual recursion, missing files, "
         "func_instance / file / origin / angles spelt in mixed case, run under a call counter (bound of C17_term + 5) and an alarm, "
-        "recursion limit 0-5). A case is non-trivial when something is placed with a non-identity placement or a name/"
+        "recursion limit 0-5; retry after FileNotFoundError / RecursionError must equal a clean run); I/O proxy cases (1-3 entities, a proxy "
+        "named in any case, OnProxyRelay / ProxyRelay outputs in any case, outer outputs instance:name;Input and func_instance outputs "
+        "instance:name;Output in any case, fire counts -1/1/3, delays); func_instance_parms values (15 fixed + random token "
+        "sequences); 4 non-ASCII fixup tables x texts over a 22-symbol alphabet (Kelvin sign, long s, sigma forms, dotted/dotless i) "
+        "with the per-character fold table sent to the driver. A case is non-trivial when something is placed with a non-identity placement or a name/"
         "variable is rewritten; distinct by content digest.")
 TRUSTED = ["the FGD value type of every key is looked up in the implementation's own engine database by the harness "
            "(Classifier mirrors the type dispatch of collapse_one/fixup_key) and sent to the model as a tag",
@@ -34,9 +38,9 @@ TRUSTED = ["the FGD value type of every key is looked up in the implementation's
            f"{G.TOL_MEM} (relative, in-memory geometry), {G.TOL_TXT} (values that went through 6-decimal text), "
            f"{G.TOL_GIMBAL} for orientations within 0.0011 of vertical"]
 NOT_MODELLED = [G.SPECIAL_KEYS_NOTE, 'visgroup ids / nav-node ids (id allocation in the target map): checked by the direct search only',
-                'instance I/O proxies (func_instance_io_proxy), func_instance_parms typing', 'id allocation in the target map',
-                'Python re.IGNORECASE/casefold beyond ASCII variable names']
-ASSUMPTIONS = ['fixup variable names are ASCII; texts avoid U+017F/U+212A/U+0130/U+0131 (extra case-insensitive matches of ASCII letters)',
+                'id allocation in the target map', 'numbered proxy outputs OnProxyRelayN and the parmN key spelling of the engine FGD (the code only knows OnProxyRelay / ProxyRelay / keys starting with param: observation)',
+                'characters whose case folding is not character-wise (ß, İ ...)']
+ASSUMPTIONS = ['case-insensitive comparison is modelled character-wise by a fold table lw (a key character a matches a text character b iff a == lw(b); matched names fold by map lw); the harness extracts lw from str.casefold and CHECKS on Python re/str for the characters of every request that this is how they behave - requests containing characters that do not (ß, İ, ı ...: multi-character folds, re special cases) are counted and left to the spec oracle only',
                'R is the float matrix the implementation built from the angles; its deviation from orthogonality (<1e-12) is checked, not assumed']
 
 _IMPL = None
@@ -561,6 +565,9 @@ SUB_TABLES = [[], [('a', 'X')], [('a', 'X'), ('ab', 'Y')], [('ab', 'Y'), ('a', '
               [('b', '$a'), ('a', 'b')], [('_', 'U'), ('a_b', 'V')], [('a.b', 'D'), ('a', 'X')], [('ba', '1'), ('ab', '2'), ('b', '3'), ('bab', '4')]]
 
 
+NONASCII_TABLES = [[('É', 'acc'), ('é2', 'v')], [('ſ', 'long-s'), ('Ö_k', 'ok')], [('K', 'kelvin'), ('σς', 'sig')], [('Größe', 'g'), ('i', 'dot')]]
+
+
 def impl_subst(im, table, dflt, text):
     fx = im['EntityFixup']([im['FixupValue'](k, v, i + 1) for i, (k, v) in enumerate(table)])
     return fx.substitute(text, dflt), [[codes(k), codes(f.value)] for k, f in fx._fixup.items()]
@@ -591,11 +598,38 @@ def corr_substitute(ctx, drv):
                 if want is not None and r != want:
                     _wit(ctx, 'substitute', f'substitute({text!r}) with {table} gives {r!r}, expected {want!r}',
                                 {'kind': 'subst', 'table': table, 'dflt': dflt, 'text': text})
+    # variable names and texts beyond ASCII: the driver gets the per-character fold table; characters for which Python's
+    # re.IGNORECASE / casefold do not act character-wise (ß, İ ...) put the case outside the table model (counted)
+    nmeta = []
+    alpha = ['$', 'É', 'é', 'ſ', 's', 'S', '\u212a', 'k', 'K', 'ß', 'ö', 'Ö', 'σ', 'ς', 'Σ', '2', '_', ' ', 'İ', 'ı', 'I', 'i']
+    ntexts = [''.join(t) for n in range(4) for t in itertools.product(alpha[:12], repeat=n) if '$' in t]
+    for _ in range(ctx.budget(3000, 30000)):
+        ntexts.append(''.join(rng.choice(alpha + ['$', '$']) for _ in range(rng.randrange(2, 9))))
+    for ti, table in enumerate(NONASCII_TABLES):
+        for text in ntexts:
+            dflt = ''
+            try:
+                r, tbl = impl_subst(im, table, dflt, text)
+            except Exception as e:
+                r, tbl = f'<{type(e).__name__}>', [[codes(k.casefold()), codes(v)] for k, v in table]
+            keys = [uncodes(k) for k, _ in tbl]
+            applies = G.fold_model_applies({c for k in keys for c in k}, set(text))
+            ctx.count('non-ASCII substitute cases' if applies else 'non-ASCII substitute cases outside the char-fold table model (ß, İ ...)')
+            ctx.case({'subst': text, 'ntable': ti}, nontrivial=True, sample_every=20011)
+            if not applies:
+                continue
+            reqs.append({'op': 'subst', 'tbl': tbl, 'dflt': codes(dflt), 'text': codes(text), 'fold': G.fold_table([text] + keys)})
+            meta.append((('n', ti), dflt, text, r))
+            want = G.spec_substitute(table, text)
+            if want is not None and r != want:
+                _wit(ctx, 'substitute', f'substitute({text!r}) with {table} gives {r!r}, expected {want!r}',
+                     {'kind': 'subst', 'table': table, 'dflt': dflt, 'text': text})
     ctx.count('substitute cases', len(reqs))
     for (ti, dflt, text, r), m in zip(meta, drv.batch(reqs)):
         ctx.traces_vs_impl += 1
         if 'r' not in m or uncodes(m['r']) != r:
-            ctx.disagree({'subst': text, 'table': SUB_TABLES[ti], 'dflt': dflt}, r, m, 'EntityFixup.substitute')
+            tb = NONASCII_TABLES[ti[1]] if isinstance(ti, tuple) else SUB_TABLES[ti]
+            ctx.disagree({'subst': text, 'table': tb, 'dflt': dflt}, r, m, 'EntityFixup.substitute')
 
 
 def corr_fixup_name(ctx, drv):
@@ -794,7 +828,7 @@ def run_io(seed):
     I, VMF, Output, Vec, Matrix, FixupValue = im['I'], im['VMF'], im['Output'], im['Vec'], im['Matrix'], im['FixupValue']
     rng = random.Random(seed)
     cv = lambda x, p=0.3: G.case_variant(rng, x, p)
-    names = rng.sample(['relay', 'Relay2', 'door$nm', '@glob', 'btn', 'counter', 'x y'], rng.choice([1, 2, 3]))
+    names = rng.sample(['relay', 'Relay2', 'door$nm', '@glob', 'btn', 'counter', 'x y', 'tür', 'Straße'], rng.choice([1, 2, 3]))
     proxy_name = rng.choice(['proxy', 'proxy', 'Proxy', 'PROXY_1'])
     t = VMF()
     mk = lambda out, targ, inp: Output(out, targ, inp, rng.choice(['', '', 'par', '$nm']), rng.choice([0.0, 0.5, 0.25, 2.0]),
@@ -848,6 +882,11 @@ def run_io(seed):
                 'inst': {'name': codes(params['name']), 'style': params['style'],
                          'fixup': [[codes(k), codes(fv.value)] for k, fv in inst.fixup._fixup.items()],
                          'outs': [_owire(o) for o in inst_recs]}}
+    strs = [t_[1] for t_ in tmpl] + [x for t_ in tmpl for o in t_[2] for x in o[:3]] + [params['name']] + \
+           [x for outs in outer_before for o in outs for x in (o[1], o[2], o[7] or '')] + [x for o in inst_recs for x in (o[0], o[6] or '')]
+    r['req']['fold'] = G.fold_table(strs)
+    # names are compared after str.casefold(); the model folds character-wise
+    r['fold_applies'] = all(len(c.casefold()) == 1 for st_ in strs for c in st_)
     return r
 
 
@@ -940,8 +979,10 @@ def corr_io(ctx, drv):
         nt = any(t[0] for t in r['tmpl']) and any(o[7] is not None or o[6] is not None for outs in r['outer_before'] for o in outs + r['inst_outs'])
         ctx.case({'io': seed}, nontrivial=nt, sample_every=211)
         ctx.count('io-proxy cases')
-        if r['error'] is None:
+        if r['error'] is None and r['fold_applies']:
             reqs.append(r['req']); meta.append(r)
+        elif r['error'] is None:
+            ctx.count('io-proxy cases outside the char-fold table model (ß ...): oracle only')
     for r, m in zip(meta, drv.batch(reqs)):
         ctx.traces_vs_impl += 1
         if 'outer' not in m:
